@@ -35,7 +35,7 @@ class GridRng:
         return low + (high - low) * ((np.arange(n) % self.grid + 0.5) / self.grid)
 
     def choice(self, a, size=None):
-        return np.asarray(list(a))[:1]
+        return np.asarray(list(range(int(a))) if isinstance(a, (int, np.integer)) else list(a))[:1]
 
 
 K_ROW = "learning-window-row-is-not-a-stored-environment-step"
